@@ -148,6 +148,35 @@ def run(ctx, F, cg):
                 else:
                     ctx.violation("R03c", inst, where(r, c.line), "the value returned on a hit is not a clone of the stored AST")
     ctx.floor("R03a", "cache operations examined", ncache, 2)
+    # ---- R03e: the verified cache is the only place parsed statements are kept / returned from -------------
+    ctx.rule("R03e", "QueryEngine keeps parsed statements only in the verified cache, and every AST returned by a caching parse function is a clone of a verified-cache hit or this activation's parse_query result")
+    qe = F.adt("query::QueryEngine")
+    holders = [f[0] for f in qe["variants"][0]["fields"] if "ast::Query" in f[1]]
+    extra = [h for h in holders if h != "ast_cache"]
+    if extra:
+        for h in extra:
+            ctx.violation("R03e", "QueryEngine|extra-ast-store|" + h, "%s:%s" % (qe["file"], qe["line"]),
+                          "field `%s` also stores parsed statements; a second cache/fast path needs the same key discipline as ast_cache" % h)
+    else:
+        ctx.ok("R03e", "QueryEngine|single-ast-store", "only `ast_cache` holds Query values (fields holding ast::Query: %s)" % holders)
+    for r in sorted(users, key=lambda x: x["path"]):
+        b = Body(F.mir(r["path"]), r)
+        if "ast::Query" not in b.local_ty(0) or not b.calls_to(["parser::parse_query"]):
+            continue
+        short = r["path"].replace("samyama::query::", "")
+        k = 0
+        for i, j, pl, rv, line, exp in b.stmts():
+            if pl[0] == 0 and not pl[1] and rv[0] == "agg" and rv[1].endswith("Result::Ok") and rv[2] and rv[2][0][0] != "k":
+                og = b.origins(rv[2][0][1][0], through_calls=lambda cc: [0] if cc.path.rsplit("::", 1)[-1] in ("clone", "branch", "unwrap", "deref") else None)
+                srcs = [o[1] for o in og if o[0] == "call"]
+                bad = [c for c in srcs if not (c.path.endswith("parser::parse_query") or ("LruCache" in c.path and c.path.rsplit("::", 1)[-1] in ("get", "peek", "get_mut")))]
+                good = [c for c in srcs if c not in bad]
+                inst = "%s|returned-ast|%d" % (short, k)
+                k += 1
+                if bad or not good:
+                    ctx.violation("R03e", inst, where(r, line), "an AST is returned that comes from %s rather than the verified cache or a fresh parse" % ([c.path for c in bad] or "an unknown source"))
+                else:
+                    ctx.ok("R03e", inst, "returned AST comes from %s" % sorted({c.path.rsplit("::", 1)[-1] for c in good}))
     # ---- R03d purity -------------------------------------------------------------------------
     pq = F.fn("query::parser::parse_query")
     par = cg.reach([pq["path"]], cha=True)
